@@ -227,8 +227,9 @@ func engineOracles(c *Ctx, ec *eCase, recs []reqRec) {
 		// ---- C01: delivered output fits
 		if r.f == "ok" && ec.out > 0 && len(r.out) > ec.out {
 			cls := "flush-oversize"
-			if !r.cont && r.x == "ok" && len(r.code) == 0 && !flagBit(r.flags, 6) {
-				// graceful end: Flush appends the exit value (last loaded content) after the page
+			if !r.cont && r.x == "ok" {
+				// the session is over (graceful end, or blocked by TERMINATE with a `first` function): Flush appends the
+				// exit value (last loaded content) after the page, or delivers it alone, without a size check
 				cls = "flush-oversize-exit-suffix"
 			}
 			c.Fail("C01", cls, fmt.Sprintf("%s: %d bytes delivered, output size %d: %q", where, len(r.out), ec.out, trunc(string(r.out), 80)))
@@ -578,6 +579,14 @@ func engineOracles(c *Ctx, ec *eCase, recs []reqRec) {
 			}
 			if a.x != b.x || a.cont != b.cont || a.f != b.f || !bytes.Equal(a.out, b.out) {
 				cls := "mode-divergence"
+				for j := 1; j <= i; j++ {
+					// a duplicate selector made two moves in one request (finding C03-duplicate-selector): the stale
+					// code of the first target then runs under the second, and what it leaves in the renderer
+					// (browse entries) lives on in a long-lived engine only
+					if _, _, _, _, nm := firstMatch(recs[j-1].code, ec.inputs[j]); nm > 1 {
+						cls = "divergence-after-duplicate-selector"
+					}
+				}
 				for j := 0; j < i; j++ {
 					if (recs[j].x == "err" && !refusedInput(ec.inputs[j])) || (recs[j].x == "ok" && recs[j].f == "err") {
 						cls = "divergence-after-failed-request"
